@@ -28,7 +28,8 @@ REQUIRED = ["trees_built", "trees_with_unpruned_leaf", "trees_fully_pruned", "pr
             "parse_logs_with_missing_or_short_assertion_json",
             "parse_winner_only_entry_with_an_empty_list_or_null_for_already_eliminated",
             "parse_candidate_manifest_omits_a_candidate_of_the_contest", "parse_contest_labelled_other_than_IRV",
-            "printed_trees_compared_with_the_tree_of_the_full_set", "assertion_records_given_as_lists"]
+            "printed_trees_compared_with_the_tree_of_the_full_set", "assertion_records_given_as_lists",
+            "parse_elimination_record_whose_loser_is_in_its_eliminated_list"]
 ASSUMPTIONS = ["tag comparison is by assertion content (the module identifies an assertion by list.index, which maps exact "
                "duplicates to one index)"]
 N_CASES = {"quick": 128000, "thorough": 1024000}
@@ -341,6 +342,11 @@ def run_parse(case, rec, V):
                 # assertion says what it says
                 E = E + [rng.choice(("45", "W/I"))]
                 rec.count("parse_eliminated_set_names_an_id_outside_the_candidate_list")
+            if rng.random() < 0.1:
+                # a record whose "loser" field names a candidate of its own eliminated list (another writer's idea of what
+                # "loser" means there): the assertion is about the winner and the eliminated set, which is what it says
+                E = E + [l]
+                rec.count("parse_elimination_record_whose_loser_is_in_its_eliminated_list")
             ajson.append({"assertion_type": "IRV_ELIMINATION", "winner": w, "loser": l, "already_eliminated": E})
             adict[f"a{j}"] = {"winner": w, "loser": l, "proved": proved}
             want_el.append((w, set(E), proved))
